@@ -109,7 +109,8 @@ type Diameter struct {
 	Protocol string `yaml:"protocol" valid:"required"`
 	HostIPv4 string `yaml:"hostIPv4,omitempty" valid:"required,host"`
 	Port     int    `yaml:"port,omitempty" valid:"required,port"`
-	Tls      *Tls   `yaml:"tls,omitempty" valid:"optional"`
+	// the rating and account Diameter peers are always dialled and served over TLS
+	Tls *Tls `yaml:"tls,omitempty" valid:"required"`
 }
 
 type Cgf struct {
@@ -316,11 +317,17 @@ func (c *Config) GetSbiScheme() string {
 func (c *Config) GetCertPemPath() string {
 	c.RLock()
 	defer c.RUnlock()
+	if c.Configuration.Sbi.Tls == nil {
+		return ChfDefaultTLSPemPath
+	}
 	return c.Configuration.Sbi.Tls.Pem
 }
 
 func (c *Config) GetCertKeyPath() string {
 	c.RLock()
 	defer c.RUnlock()
+	if c.Configuration.Sbi.Tls == nil {
+		return ChfDefaultTLSKeyPath
+	}
 	return c.Configuration.Sbi.Tls.Key
 }
